@@ -186,9 +186,9 @@ def body(chk: check.Check):
     recs = []
     for panel in (False, True):
         for est in (True, False):
-            plans = [(1, (3,) if quick else (1,), False), (2, (24, 36) if quick else (10, 15), False)]
+            plans = [(1, (3,) if quick else (1,), False), (2, (24, 36) if quick else (16, 24), False)]
             if not quick:
-                plans.append((3, (40, 56, 72), False))
+                plans.append((3, (80, 112, 144), False))
             # chains: a logit with unmatched keys below two wrappers (three operators deep), every wrapper class
             plans.append((3, (6, 11, 11) if quick else (3, 5, 5), True))
             for max_ops, thin, chain in plans:
@@ -196,7 +196,7 @@ def body(chk: check.Check):
                               workers='auto', timeout=2400)
                 chk.add_tlc(f'Audit: panel={panel} estimation={est} ops<={max_ops} thin={thin}' + (' chains' if chain else ''), res)
                 emitted = res.emitted
-                cap = 400 if quick else 5000
+                cap = 400 if quick else 2000
                 if chain and len(emitted) > cap:      # the residue classes of the chains are lumpy: a regular sample
                     emitted = emitted[:: -(-len(emitted) // cap)]
                 for n_, r_ in enumerate(emitted):
